@@ -179,6 +179,15 @@ def main():
                 pth = os.path.join(tmpd, tag)
                 open(pth, "wb").write(arcfs_stored(tp))
                 archives.append((tag, pth, hashlib.md5(tp).hexdigest(), len(arcfs_stored(tp))))
+        # classic ARC has no "stored CRC 0 means no check" rule: a member whose CRC-16 really is 0x0000 (1 file in 65536) is checked like any other
+        import struct
+        for tgt in (0x0000, 0x0100, 0x00c5):
+            tp = tune_tail_crc16(nm, tgt)
+            if tp:
+                tag = "n-arc-stored-crc%04x" % tgt
+                blob = bytes([0x1a, 2]) + b"N.MOD".ljust(13, b"\0") + struct.pack("<IHHHI", len(tp), 0x5021, 0x6000, crc16_arc(tp), len(tp)) + tp + b"\x1a\x00"
+                pth = os.path.join(tmpd, tag); open(pth, "wb").write(blob)
+                archives.append((tag, pth, hashlib.md5(tp).hexdigest(), len(blob)))
         for f in ("arc-method2", "arc-method8-rle" if tier == "thorough" else None, "arcfsdata", "lzxstore", "lzxdata", "arc-subdir-spark"):
             if f and os.path.exists(os.path.join(data, f)):
                 if f.startswith("arcfs"):
